@@ -94,6 +94,7 @@ func checkC08(c *Ctx) {
 
 	checkRouteClash(c, "C08.R1.route-clash", gen)
 	checkLoopTotality(c, "C08.R6.loop-totality", gen, "generator", 20, generatorLoopExits)
+	checkArgumentRoles(c, "C08.R7.argument-roles", gen, "generator", 10)
 	checkRangeFilters(c, "C08.R6.range-filters", ev, reviewedRangeFilters, 25)
 	checkOperationIdentity(c, gen)
 	checkOperationDedup(c, gen)
